@@ -280,3 +280,113 @@ macro_rules! with_image {
         })
     }};
 }
+
+/// Expands `$body` with the type aliases `$R` (raw type) and `$BO` (data order) for (bpp, be).
+#[macro_export]
+macro_rules! with_raw_types {
+    ($bpp:expr, $be:expr, $R:ident, $BO:ident, $body:block) => {{
+        #[allow(unused_imports)]
+        use embedded_graphics::pixelcolor::raw::{BigEndianLsb0, LittleEndianMsb0, RawU1, RawU16, RawU2, RawU24, RawU32, RawU4, RawU8};
+        match ($bpp, $be) {
+            (1, false) => {
+                #[allow(dead_code)]
+                type $R = RawU1;
+                #[allow(dead_code)]
+                type $BO = LittleEndianMsb0;
+                $body
+            }
+            (1, true) => {
+                #[allow(dead_code)]
+                type $R = RawU1;
+                #[allow(dead_code)]
+                type $BO = BigEndianLsb0;
+                $body
+            }
+            (2, false) => {
+                #[allow(dead_code)]
+                type $R = RawU2;
+                #[allow(dead_code)]
+                type $BO = LittleEndianMsb0;
+                $body
+            }
+            (2, true) => {
+                #[allow(dead_code)]
+                type $R = RawU2;
+                #[allow(dead_code)]
+                type $BO = BigEndianLsb0;
+                $body
+            }
+            (4, false) => {
+                #[allow(dead_code)]
+                type $R = RawU4;
+                #[allow(dead_code)]
+                type $BO = LittleEndianMsb0;
+                $body
+            }
+            (4, true) => {
+                #[allow(dead_code)]
+                type $R = RawU4;
+                #[allow(dead_code)]
+                type $BO = BigEndianLsb0;
+                $body
+            }
+            (8, false) => {
+                #[allow(dead_code)]
+                type $R = RawU8;
+                #[allow(dead_code)]
+                type $BO = LittleEndianMsb0;
+                $body
+            }
+            (8, true) => {
+                #[allow(dead_code)]
+                type $R = RawU8;
+                #[allow(dead_code)]
+                type $BO = BigEndianLsb0;
+                $body
+            }
+            (16, false) => {
+                #[allow(dead_code)]
+                type $R = RawU16;
+                #[allow(dead_code)]
+                type $BO = LittleEndianMsb0;
+                $body
+            }
+            (16, true) => {
+                #[allow(dead_code)]
+                type $R = RawU16;
+                #[allow(dead_code)]
+                type $BO = BigEndianLsb0;
+                $body
+            }
+            (24, false) => {
+                #[allow(dead_code)]
+                type $R = RawU24;
+                #[allow(dead_code)]
+                type $BO = LittleEndianMsb0;
+                $body
+            }
+            (24, true) => {
+                #[allow(dead_code)]
+                type $R = RawU24;
+                #[allow(dead_code)]
+                type $BO = BigEndianLsb0;
+                $body
+            }
+            (32, false) => {
+                #[allow(dead_code)]
+                type $R = RawU32;
+                #[allow(dead_code)]
+                type $BO = LittleEndianMsb0;
+                $body
+            }
+            (32, true) => {
+                #[allow(dead_code)]
+                type $R = RawU32;
+                #[allow(dead_code)]
+                type $BO = BigEndianLsb0;
+                $body
+            }
+            _ => panic!("unsupported bpp"),
+        }
+    }};
+}
